@@ -72,8 +72,14 @@ inductive Ask where
   | x509Parse (der : Bytes)
   | x509CheckSig (der : Bytes) (alg : Nat) (msg sig : Bytes)
   | tpmHashes                                            -- which TPM hash algorithms are linked in: (TPM_ALG_ID, crypto.Hash id) pairs
-  | safetyNet (raw : Bytes)                              -- parse + chain validation + claims
-  | jwsHeaders (raw : Bytes)                             -- jwt.ParseSigned: number of signatures/headers
+  | safetyNet (raw : Bytes)                              -- parse + chain validation + claims, for the JWS forms Model/Jws.lean does not cover (JSON serialisation, "jwk" header)
+  | x509Verify (leaf : Bytes) (intermediates : List Bytes) (dns : Bytes)
+                                                         -- leaf.Verify(VerifyOptions{DNSName: dns, Intermediates: …}) against the system roots succeeded?
+  | jwsVerify (raw : Bytes) (leafDer : Bytes)            -- JSONWebSignature.Verify(leaf certificate's public key) succeeded?
+  | x509VerifyPool (leaf : Bytes) (intermediates : List Bytes) (pool : Nat)
+                                                         -- leaf.Verify(VerifyOptions{Roots: pool, Intermediates: …}) succeeded? (pool: 0 default root, 1 nil = system roots, i+2 = i-th custom pool)
+  | blobPayload (payload : Bytes)                        -- json.Unmarshal(payload, &MetadataBLOBPayload{}) (go-jose's JSON) succeeded: the decoded value, re-marshalled
+  | jwsHeaders (raw : Bytes)                             -- jwt.ParseSigned: number of signatures/headers (the JWS forms Model/Jws.lean does not cover)
   | jwsChain (raw : Bytes) (i : Nat) (pool : Nat)        -- Headers[i].Certificates(Roots: pool): leaf of the first chain
   | jwsClaims (raw : Bytes) (leafDer : Bytes)            -- tok.Claims(leaf key): the payload
   deriving Repr, DecidableEq, Inhabited
